@@ -1359,12 +1359,20 @@ impl ValueWriter<'_, '_> {
                     Self::write_observation(buf, counts, first, multiplicity, name).is_ok();
                 wrote_anything |= wrote;
                 for observation in second.into_iter().chain(distribution) {
-                    if wrote {
+                    // the separator is only kept if the observation after it is written,
+                    // otherwise a skipped (NaN) trailing observation would leave a dangling comma
+                    let buf_len = buf.as_str().len();
+                    let counts_len = counts.as_str().len();
+                    if wrote_anything {
                         buf.push(',');
                         counts.push(',');
                     }
                     wrote = Self::write_observation(buf, counts, observation, multiplicity, name)
                         .is_ok();
+                    if !wrote {
+                        buf.truncate(buf_len);
+                        counts.truncate(counts_len);
+                    }
                     wrote_anything |= wrote;
                 }
                 // injection-safe because this is a comma-separated list of numbers
